@@ -10,6 +10,8 @@ package main
 
 import (
 	"flag"
+	"fmt"
+	"strings"
 )
 
 var (
@@ -26,6 +28,7 @@ var (
 	flagChunk  = flag.Int("chunk", 384, "driver: exchanges per chunk")
 	flagBudget = flag.Int("budget", 0, "driver: internal deadline in seconds (0 = tier default)")
 	flagOnly   = flag.String("only", "", "driver: only seeds whose listener/name contains this string")
+	flagTarget = flag.Int("target", 0, "manual runs: base port of a running worker; the unmutated seeds selected by -only are delivered to it")
 	flagShow   = flag.Bool("show", false, "driver: print the answer classes of the unmutated seeds and the class counts per seed and mutation kind")
 )
 
@@ -40,6 +43,16 @@ func main() {
 			kind.TLS = 1
 		}
 		workerMain(*flagBase, *flagDir, *flagMoQ, kind, *flagMem)
+		return
+	}
+	if *flagTarget > 0 {
+		// manual runs: deliver the unmutated seeds selected by -only to a worker that is already running
+		for _, s := range allSeeds(true) {
+			if strings.Contains(s.Listener+"/"+s.Name, *flagOnly) {
+				cl, _ := runExchange(&Exchange{Seed: s, Mut: Mut{Kind: mSeed}}, Ports{Base: *flagTarget}, normalOpts)
+				fmt.Printf("%s/%s -> %s\n", s.Listener, s.Name, cl)
+			}
+		}
 		return
 	}
 	if *flagReplay != "" {
